@@ -106,6 +106,25 @@ def _blackbox(case, ctx):
     Xte, cte, _ = pzoo.make_panel(rng, 9, case["nc"], case["nt"], classes=k)
     yte, _ = _labels(case["labels"], cte, k)
     clf = pzoo.build(name, case["eseed"])
+    if case["dseed"] % 3 == 0:
+        # the instance had an earlier life: fitted on another problem with more classes and other label values (of the same type);
+        # after fit on this problem nothing of that may show (all monitors below run on the reused instance)
+        k0 = k + 2
+        X0, c0, _ = pzoo.make_panel(rng, max(case["ni"], 2 * k0), case["nc"], case["nt"] + 3, classes=k0)
+        sample = np.asarray(y).tolist()[0]
+        if isinstance(sample, str):
+            y0 = np.array(["zz%d" % v for v in c0])
+        elif isinstance(sample, (bool, np.bool_)):
+            y0 = None
+        else:
+            y0 = (np.asarray(c0) * 7 - 3).astype(np.asarray(y).dtype)
+        if y0 is not None:
+            try:
+                clf.fit(X0, y0)
+                clf.predict_proba(X0)
+                ctx.tag("classifier:reused-instance")
+            except Exception:  # noqa
+                clf = pzoo.build(name, case["eseed"])
     ok, _ = ctx.call("fit:exception:" + name, clf.fit, X, ytrain)
     if not ok:
         return
